@@ -26,7 +26,7 @@ ScenOf(t) == [prod |-> IF "prod" \in DOMAIN t.params THEN t.params.prod ELSE "va
 \* an observer that hands its copy to WhenAll (the combinator retires the value from the shared state: copy, or move
 \* when it is provably the last owner) is not modelled at operation level: such executions are judged by the abstract
 \* monitors only, from the start
-Modelled(t) == \A i \in Obs : OpOf(t, i) # "whenall"
+Modelled(t) == \A i \in Obs : OpOf(t, i) \notin {"whenall", "await2"}
 
 TInit ==
   /\ TLCSet(1, {}) /\ TLCSet(2, 1) /\ TLCSet(3, {})
@@ -57,7 +57,7 @@ TRobs ==
 TDrift ==
   /\ l <= Len(T) /\ T[l].e \in {"op", "robs"}
   /\ drift \/ (T[l].e = "op" /\ ~ENABLED Conform(T[l])) \/ (T[l].e = "robs" /\ ~ENABLED (RootDrain /\ ev'.obs = T[l].obs))
-  /\ drift' = TRUE /\ (IF \A i \in Obs : scen.ops[i] # "whenall" THEN NoteDrift(l) ELSE TRUE)
+  /\ drift' = TRUE /\ (IF \A i \in Obs : scen.ops[i] \notin {"whenall", "await2"} THEN NoteDrift(l) ELSE TRUE)
   /\ seen' = See(IF T[l].e = "op" THEN T[l].p ELSE "root", T[l].obs)
   /\ UNCHANGED vars
   /\ l' = l + 1 /\ Progress(l')
